@@ -110,8 +110,22 @@ pub fn gen_value(cx: &mut Ctx, big_ok: bool) -> Vec<u8> {
 
 /// Name-value pairs whose name+value is at most `max_pair` bytes.
 pub fn gen_pairs(cx: &mut Ctx, max_pairs: usize, max_pair: usize, big_ok: bool) -> Vec<(Vec<u8>, Vec<u8>)> {
-    let n = cx.ch.range(0, max_pairs);
+    // scale: one list in ~300 (where large inputs are allowed) has 300..2000 pairs
+    let many = big_ok && cx.ch.chance(1, 300);
+    let n = if many { cx.probe("environment_of_300plus_pairs"); cx.ch.range(300, 2000) } else { cx.ch.range(0, max_pairs) };
     let mut pairs: Vec<(Vec<u8>, Vec<u8>)> = Vec::new();
+    if many {
+        for i in 0..n {
+            let name = if cx.ch.chance(1, 10) { gen_name(cx, &pairs) } else { format!("V{}_{}", i, i * 7919 % 1000).into_bytes() };
+            let l = cx.ch.range(0, 12);
+            let mut val = gen_bytes(cx, l);
+            let mut name = name;
+            if name.len() > max_pair { name.truncate(max_pair); }
+            if name.len() + val.len() > max_pair { val.truncate(max_pair - name.len()); }
+            pairs.push((name, val));
+        }
+        return pairs;
+    }
     for _ in 0..n {
         let mut name = gen_name(cx, &pairs);
         let mut val = gen_value(cx, big_ok);
